@@ -239,6 +239,9 @@ def _cases(tier, seed):
         for name in ('inheritance_tables', 'class_bases', 'property_forms', 'overloads', 'zope', 'constants', 'nested_defs'):
             yield {'snippet': name, 'docformat': 'restructuredtext', 'argv': ['--theme', theme]}
         yield {'tree': 'import_cycle_packages', 'docformat': 'epytext', 'argv': ['--theme', theme]}
+        yield {'tree': 'kitchen', 'docformat': 'epytext', 'argv': ['--theme', theme, '--process-types', '--sidebar-expand-depth', '3']}
+    yield {'tree': 'kitchen', 'docformat': 'restructuredtext'}
+    yield {'tree': 'kitchen', 'docformat': 'numpy', 'argv': ['--privacy=HIDDEN:ks._impl._Hidden', '--privacy=PRIVATE:ks.api.*']}
     rnd = random.Random(seed)
     names = list(SNIPPETS)
     n = 60 if tier == 'quick' else 1500
@@ -262,6 +265,9 @@ def _alarm(signum, frame):
 
 
 def _tree(case):
+    if case.get('tree') == 'kitchen':
+        from replay import kitchen
+        return dict(kitchen.KITCHEN, **{'pk/__init__.py': '', 'pk/good.py': GOOD})
     if 'tree' in case:
         return dict(TREES[case['tree']])
     files = {'pk/__init__.py': '"""Package."""\n', 'pk/good.py': GOOD}
